@@ -114,7 +114,11 @@ impl GLM {
         let n = dmu.len();
         let p = is_matrix(x, n).unwrap();
 
-        let working_weights = vdiv(&vmul(weights, &vmul(dmu, dmu)), var);
+        // weights * dmu * (dmu / var), the quotient first as in the working residuals: dmu * dmu
+        // overflows to infinity from dmu ~ 1e154 on (a log-link fit starts at eta = mean(y)), and an
+        // infinite information matrix turns the Newton step into 0, which the stopping rule would
+        // then take for convergence at the starting value
+        let working_weights = vmul(&vmul(weights, dmu), &vdiv(dmu, var));
         let mut weighted_x = x.to_vec();
 
         for i_n in 0..n {
